@@ -36,6 +36,8 @@ type m3Scenario struct {
 	Late       bool     `json:"late"`        // each closer reports once more after its Close returned
 	SameBucket bool     `json:"same_bucket"` // all producers report through ONE histogram bucket handle
 	Dests      int      `json:"dests"`
+	Dead       int      `json:"dead"`        // the first Dead destinations are ports nobody listens on (send errors)
+	CloseAfter int      `json:"close_after"` // Close callers start only after this many report calls have returned
 	Points     []string `json:"points,omitempty"`
 }
 
@@ -52,6 +54,7 @@ type m3Run struct {
 	tn                           map[string]int   // per thread: number of report calls made
 	emits                        atomic.Int64     // batches the batching goroutine has handed to the transport
 	received                     []int            // datagrams drained so far, per sink
+	nret                         int              // report calls that have returned
 	metClosed                    bool
 	sinceSpin                    map[string]int
 	panics                       []string
@@ -90,12 +93,15 @@ func (r *m3Run) drain(commonWant map[string]string) {
 		r.received = make([]int, len(r.sinks))
 	}
 	for si, s := range r.sinks {
+		if s == nil {
+			continue
+		}
 		// what the sender is known to have emitted is waited for (loopback delivery may lag on a busy machine)
 		dgs := s.drainN(int(r.emits.Load())-r.received[si], 300*time.Millisecond)
 		r.received[si] += len(dgs)
 		for _, d := range dgs {
 			b, _, ok, why := decodeBatch(d, r.sc.Compact)
-			ev := M{"e": "emit", "dest": si + 1, "len": len(d), "ok": ok, "why": why, "mets": []M{}, "common_ok": true}
+			ev := M{"e": "emit", "dest": si + 1, "len": len(d), "ok": ok, "why": why, "mets": []M{}, "common_ok": true, "alone_ok": true, "nall": 0}
 			if ok {
 				ct := map[string]string{}
 				for _, t := range b.CommonTags {
@@ -108,6 +114,21 @@ func (r *m3Run) drain(commonWant map[string]string) {
 					}
 				}
 				ev["common_ok"] = cok
+				// C12's proviso "provided each single metric fits on its own": envelope + that metric alone within the limit
+				sum, largest := 0, 0
+				for _, m := range b.Metrics {
+					n := encodedMetricLen(m, r.sc.Compact)
+					sum += n
+					if n > largest {
+						largest = n
+					}
+				}
+				maxp := r.sc.MaxPacket
+				if maxp == 0 {
+					maxp = 1440
+				}
+				ev["alone_ok"] = len(d)-sum+largest <= maxp
+				ev["nall"] = len(b.Metrics)
 				mets := []M{}
 				for _, m := range b.Metrics {
 					if strings.HasPrefix(m.Name, "tally.internal") {
@@ -176,13 +197,20 @@ func m3Execute(sc *m3Scenario, choose sched.Chooser) (ev []M, steps []sched.Step
 	}
 	var addrs []string
 	for i := 0; i < dests; i++ {
+		if i < sc.Dead {
+			r.sinks = append(r.sinks, nil)
+			addrs = append(addrs, deadUDPAddr())
+			continue
+		}
 		sk := newUDPSink()
 		r.sinks = append(r.sinks, sk)
 		addrs = append(addrs, sk.addr())
 	}
 	defer func() {
 		for _, sk := range r.sinks {
-			sk.close()
+			if sk != nil {
+				sk.close()
+			}
 		}
 	}()
 	proto := m3.Compact
@@ -301,6 +329,7 @@ func m3Execute(sc *m3Scenario, choose sched.Chooser) (ev []M, steps []sched.Step
 		r.mu.Unlock()
 		r.mu.Lock()
 		c := r.cid[id]
+		r.nret++
 		r.mu.Unlock()
 		r.log(M{"e": "ret", "t": t, "op": "report", "cid": c, "name": name, "v": vs})
 	}
@@ -354,6 +383,13 @@ func m3Execute(sc *m3Scenario, choose sched.Chooser) (ev []M, steps []sched.Step
 			late = rep.AllocateCounter("late_"+t, map[string]string{"t": t})
 		}
 		s.Go(t, guard(t, func() {
+			if sc.CloseAfter > 0 {
+				s.YieldIf("z_gate", func() bool {
+					r.mu.Lock()
+					defer r.mu.Unlock()
+					return r.nret >= sc.CloseAfter
+				})
+			}
 			r.log(M{"e": "call", "t": t, "op": "close"})
 			err := rep.Close()
 			alive := false
@@ -431,7 +467,7 @@ func m3Emit(tr *Trace, side *Trace, sc *m3Scenario, ev []M, steps []sched.Step, 
 		m3StepTrace.Emit(M{"e": "endx", "x": execSeq, "scenario": sc.Name})
 	}
 	tr.Emit(M{"e": "scn", "x": execSeq, "scenario": sc.Name, "producers": sc.Producers, "nrep": sc.NRep, "closers": sc.Closers, "flushers": sc.Flushers,
-		"qcap": sc.QCap, "max_packet": sc.MaxPacket, "dests": max1(sc.Dests), "alive": aliveList(max1(sc.Dests), 0)})
+		"qcap": sc.QCap, "max_packet": sc.MaxPacket, "dests": max1(sc.Dests), "alive": aliveList(max1(sc.Dests), sc.Dead)})
 	for _, e := range ev {
 		tr.Emit(e)
 	}
@@ -555,6 +591,10 @@ func m3Scenarios(tier string) []m3Set {
 		// every interleaving of "store the value in the handle" / "hand the metric to the reporter"
 		{&m3Scenario{Name: "same-bucket-dfs", Producers: 2, NRep: 1, QCap: 4, Compact: true, SameBucket: true, Points: []string{"m3b_set", "m3r_inc"}}, "dfs", q(400)},
 		{&m3Scenario{Name: "same-bucket-dfs-dur", Producers: 2, NRep: 1, QCap: 4, Compact: false, SameBucket: true, Points: []string{"m3b_set", "m3r_inc"}}, "dfs", q(400)},
+		// send errors: the first destination is a port nobody listens on (every second write fails), every metric is a
+		// batch of its own, the queue holds one entry
+		{&m3Scenario{Name: "dead-dest-q1", Producers: 4, NRep: 12, Closers: 1, CloseAfter: 40, QCap: 1, Compact: true, MaxPacket: 230, Dests: 2, Dead: 1}, "random", q(60)},
+		{&m3Scenario{Name: "dead-dest-q1-flush-binary", Producers: 3, NRep: 10, Flushers: 1, Closers: 1, CloseAfter: 24, QCap: 1, Compact: false, MaxPacket: 260, Dests: 2, Dead: 1}, "random", q(40)},
 		{&m3Scenario{Name: "no-close-3p-f", Producers: 3, NRep: 2, Flushers: 1, QCap: 1, Compact: true}, "random", q(100)},
 	}
 }
